@@ -67,24 +67,45 @@ def _write_file(file_path, string):
 def write_files(rendered):
     """
     Writes [(path, content)]. Every text is encoded and every file is opened for writing (created when it is not there)
-    before the first byte is written: a name that is too long, a directory or a dangling link in the way, a text that
-    cannot be encoded end the run with nothing written.
+    before the first byte is written: a name that is too long, a directory in the way, two targets that are one file
+    through a link, a text that cannot be encoded end the run with nothing written. A write that fails later (a device
+    that fills up) leaves no target with content: what a failing run leaves does not depend on the order of the targets.
     """
     encoded = [(file_path, file_content.encode("utf-8")) for file_path, file_content in rendered]
     created = []
+    targets = {}
     try:
         for file_path, _ in encoded:
-            existed = os.path.lexists(file_path)
-            os.close(os.open(file_path, os.O_WRONLY | os.O_CREAT, 0o666))
+            """ a dangling link does not exist: opening it creates the file it points to """
+            existed = os.path.exists(file_path)
+            descriptor = os.open(file_path, os.O_WRONLY | os.O_CREAT, 0o666)
+            try:
+                status = os.fstat(descriptor)
+            finally:
+                os.close(descriptor)
             if not existed:
-                created.append(file_path)
+                created.append(os.path.realpath(file_path))
+            other = targets.setdefault((status.st_dev, status.st_ino), file_path)
+            if other != file_path:
+                raise EnvironmentError("'{}' and '{}' are one file".format(*sorted([other, file_path])))
     except EnvironmentError:
         for file_path in created:
             os.remove(file_path)
         raise
-    for file_path, data in encoded:
-        with open(file_path, "wb") as f:
-            f.write(data)
+    try:
+        for file_path, data in encoded:
+            with open(file_path, "wb") as f:
+                f.write(data)
+    except EnvironmentError:
+        for file_path in sorted(set(os.path.realpath(file_path) for file_path, _ in encoded)):
+            try:
+                if file_path in created:
+                    os.remove(file_path)
+                else:
+                    open(file_path, "wb").close()
+            except EnvironmentError:
+                pass
+        raise
 
 
 def _make_path(output_dir, base_name, extension):
